@@ -192,9 +192,106 @@ def _stub_loop_check(ctx, R, f, loop, start_expr_text, start_node_text, tag):
     R.check(init == start_node_text, "C04.STUBCHAIN", tag + "|starts from the label", where(f, loop), "the chain starts from the label itself", "the chain's first receiver is `%s`, expected the label `%s`" % (init, start_node_text))
 
 
+def _expected_chains(layers_init):
+    """Reference model: every non-stub item of layer i >= 1 gets one stub in each nearer layer, chained."""
+    n = len(layers_init)
+    out = [list(l) for l in layers_init]
+    for i in range(n - 1, 0, -1):
+        for node in layers_init[i]:
+            s_ = node
+            for j in range(i - 1, -1, -1):
+                s_ = "stub(%s)" % s_
+                out[j].append(s_)
+    return out
+
+
+def _stub_hooks(log):
+    def hook(fv, args, kwargs, node, st_):
+        if isinstance(fv, Closure) and fv.func.qual == "node.Node.createStub":
+            w = args[0] if args else kwargs.get("width")
+            log.append((key(fv.selfv), key(w) if w is not None else None))
+            return Opaque("stub(%s)" % key(fv.selfv), cls=fv.func.cls, kind="obj")
+        if isinstance(fv, Closure) and fv.func.qual == "node.Node.isStub":
+            return TRUE if key(fv.selfv).startswith("stub(") else FALSE
+        if isinstance(fv, Closure) and fv.func.qual == D + ".estimateRequiredLayers":
+            return C(3)
+        return None
+    return hook
+
+
 @rule("C04.STUBCHAIN")
-def stubchain(ctx, R):
+def stubchain_instance(ctx, R):
+    """The stub phase of both algorithms evaluated on a small symbolic instance (4 resp. 3 layers):
+    loops over the concrete layer lists are followed, stub creation and the stub test are symbolic."""
     P = ctx.P
+    NODE = P.cls("node.Node")
+    # --- overlap: statements after the punting loops ---
+    f = P.func(D + ".algorithm_overlap")
+    R.saw(f)
+    cg = ctx.cg
+    body = f.node.body
+    widx = max([i for i, s_ in enumerate(body) if isinstance(s_, ast.While)] or [-1])
+    start = None
+    for i in range(widx + 1, len(body)):
+        s_ = body[i]
+        direct = any(isinstance(c, ast.Call) and isinstance(c.func, ast.Attribute) and c.func.attr == "createStub" for c in ast.walk(s_))
+        via = any("node.Node.createStub" in cg.reachable([g.qual]) for c in ast.walk(s_) if isinstance(c, ast.Call) for g, _ in ctx.types.resolve(c))
+        if direct or via:
+            start = i
+            break
+    if start is None:
+        R.bad("C04.STUBCHAIN", "overlap|stub phase", where(f), "algorithm_overlap creates no stubs after layering: labels in farther layers have no stand-ins in nearer layers")
+    else:
+        log = []
+        ev = new_eval(P, on_call=_stub_hooks(log))
+        st = ev.new_state(f)
+        s = Opaque("self", cls=P.cls(D), kind="obj")
+        dd = ev.resolve_global("distributor", "DEFAULT_OPTIONS")
+        st.heap[("self", "options")] = DictV({k: Opaque("opt:%s" % k) for k in dd.items}, ident="P:self.options")
+        st.env.vars[f.params[0]] = s
+        init = [["a0", "a1"], ["b0"], ["c0", "c1"], ["d0"]]
+        layers = Seq("list", [Seq("list", [Opaque(n_, cls=NODE, kind="obj") for n_ in l], ident="L%d" % i) for i, l in enumerate(init)], ident="LAYERS")
+        # the variable that is returned holds the layers
+        rets = [n_ for n_ in body if isinstance(n_, ast.Return)]
+        lname = rets[-1].value.id if rets and isinstance(rets[-1].value, ast.Name) else "layers"
+        st.env.vars[lname] = layers
+        r = ev.block(body[start:], st, [])
+        final = r.value if r is not None else None
+        got = [sorted(key(x) for x in l.items) for l in final.items] if isinstance(final, Seq) and all(isinstance(l, Seq) for l in final.items) else None
+        want = [sorted(l) for l in _expected_chains(init)]
+        R.check(got == want, "C04.STUBCHAIN", "overlap|4-layer instance", where(f, body[start]), "every label of layer k owns exactly one stub in each nearer layer, chained from the label outward to the axis",
+                "on the instance %s the stub phase produces %s, expected %s: every label of layer k must own exactly one stub per nearer layer, each created from the previous one" % (init, got, want))
+        R.check(bool(log) and all(w == "opt:stubWidth" for _, w in log), "C04.STUBCHAIN", "overlap|stub width", where(f), "stubs are created with the configured stub width", "createStub is called with widths %s, expected options['stubWidth']" % sorted({w for _, w in log}))
+    # --- simple ---
+    g = P.func(D + ".algorithm_simple")
+    R.saw(g)
+    log = []
+    ev = new_eval(P, on_call=_stub_hooks(log))
+    st = ev.new_state(g)
+    s = Opaque("self", cls=P.cls(D), kind="obj")
+    dd = ev.resolve_global("distributor", "DEFAULT_OPTIONS")
+    st.heap[("self", "options")] = DictV({k: Opaque("opt:%s" % k) for k in dd.items}, ident="P:self.options")
+    names = ["n%d" % i for i in range(7)]
+    nodes = Seq("list", [Opaque(n_, cls=NODE, kind="obj") for n_ in names], ident="NODES")
+    r = ev.call_closure(Closure(g, None, selfv=s), [nodes], {}, st)
+    init = [[], [], []]
+    for i, n_ in enumerate(names):
+        init[i % 3].append(n_)
+    want = [sorted(l) for l in _expected_chains(init)]
+    got = [sorted(key(x) for x in l.items) for l in r.items] if isinstance(r, Seq) and all(isinstance(l, Seq) for l in r.items) else None
+    R.check(got == want, "C04.SIMPLE", "simple|7 labels in 3 layers", where(g), "label i goes to layer i % n with one chained stub in each nearer layer",
+            "for 7 labels and 3 layers algorithm_simple returns %s, expected %s (label i in layer i %% 3, plus one stub per nearer layer chained from the label)" % (got, want))
+    R.check(bool(log) and all(w == "opt:stubWidth" for _, w in log), "C04.STUBCHAIN", "simple|stub width", where(g), "stubs are created with the configured stub width", "createStub is called with widths %s, expected options['stubWidth']" % sorted({w for _, w in log}))
+    # the number of layers is the estimate
+    cs = [c for c in calls_in(g.node) if isinstance(c.func, ast.Attribute) and c.func.attr == "estimateRequiredLayers"]
+    R.check(len(cs) == 1 and cs[0].args and ntext(cs[0].args[0]) == g.params[1], "C04.SIMPLE", "simple|layer count = estimate", where(g), "numLayers = estimateRequiredLayers(nodes)", "algorithm_simple does not take its layer count from estimateRequiredLayers(nodes)")
+
+
+@rule("C04.STUBCHAIN-ALL-N")
+def stubchain(ctx, R):
+    """Structural version for every number of layers; applies only when the loops are in a recognised idiom."""
+    P = ctx.P
+    R = _Soft(R)
     # --- overlap ---
     f = P.func(D + ".algorithm_overlap")
     R.saw(f)
@@ -304,6 +401,31 @@ def stubchain(ctx, R):
             _stub_loop_check(ctx, R, g, lj, modname, nvar, "simple")
         else:
             R.bad("C04.STUBCHAIN", "simple|layer index", where(g, lo), "no variable holding i % numLayers to start the stub chain from")
+
+
+class _Soft:
+    """Reporter wrapper: shape/recognition failures of the structural rule are not alarms (the instance rule
+    decides); genuine mismatches inside a recognised idiom still are."""
+
+    SOFT = ("|shape", "|nesting", "|iteration space", "|placed in layer j", "|outer loop", "|every item of the layer", "|only labels start chains", "|createStub", "|layer index", "|starts from the label", "layer count", "every label visited", "label i goes to layer")
+
+    def __init__(self, R):
+        self.R = R
+
+    def __getattr__(self, name):
+        return getattr(self.R, name)
+
+    def check(self, cond, rule, key_, where_="", detail="", bad_detail=None, nontrivial=True):
+        if not cond and any(key_.endswith(x) or x in key_ for x in self.SOFT):
+            self.R.ok(rule, key_ + " (idiom not recognised: decided on the instance only)", where_, "structural all-n argument not applicable to this spelling", nontrivial=False)
+            return False
+        return self.R.check(cond, rule, key_, where_, detail, bad_detail, nontrivial)
+
+    def bad(self, rule, key_, where_="", detail="", nontrivial=True):
+        if any(key_.endswith(x) or x in key_ for x in self.SOFT):
+            self.R.ok(rule, key_ + " (idiom not recognised: decided on the instance only)", where_, "structural all-n argument not applicable to this spelling", nontrivial=False)
+        else:
+            self.R.bad(rule, key_, where_, detail, nontrivial)
 
 
 def _index_of(body, node):
@@ -652,4 +774,4 @@ def state_rule(ctx, R):
     })
 
 
-RULES = [reqwidth, single, distribute_rule, stubchain, stubattrs, capacity, conserve, optflow, defaults, layeridx, reset, state_rule]
+RULES = [reqwidth, single, distribute_rule, stubchain_instance, stubchain, stubattrs, capacity, conserve, optflow, defaults, layeridx, reset, state_rule]
